@@ -31,7 +31,8 @@ def avals(n, kind=0):
 
 def iter_programs(n, maxlen, desc, zip_=False, n2=None):
     """all iterator programs of length <= maxlen within the contract (mutators only after a yield that is
-    still there; at most one structural change per yield), by simulating the ideal cursor."""
+    still there; any number of adds per yield, a remove only when nothing structural happened since the
+    yield), by simulating the ideal cursor."""
     out = []
     lim = n if n2 is None else min(n, n2)
     def go(prog, ln, pos, has_last, changed, k):
@@ -50,7 +51,7 @@ def iter_programs(n, maxlen, desc, zip_=False, n2=None):
             go(prog + (["p%d:%d" % (v, v + 100)] if zip_ else ["p%d" % v]) + ["i"], ln, pos, True, changed, k + 1)
             if not changed:
                 go(prog + ["r"], ln - 1, pos if desc else pos - 1, False, True, k + 1)
-                go(prog + (["a%d:%d" % (v, v + 100)] if zip_ else ["a%d" % v]), ln + 1, pos if desc else pos + 1, True, True, k + 1)
+            go(prog + (["a%d:%d" % (v, v + 100)] if zip_ else ["a%d" % v]), ln + 1, pos if desc else pos + 1, True, True, k + 1)
     go([], n, n if desc else 0, False, False, 0)
     return out
 
@@ -108,7 +109,14 @@ def generate(rng, tier, mode="default"):
         out.append([hdr()] + build("a", avals(3)) + ["a iter " + prog] + probe()[:4] + ["END"])
     out.append([hdr()] + build("a", avals(3)) + ["a iter a5"] + ["END"])
     out.append([hdr()] + build("a", avals(3)) + ["a iter n r a5"] + ["END"])
-    out.append([hdr()] + build("a", avals(3)) + ["a iter n a5 a6 r n n"] + probe()[:4] + ["END"])
+    # several adds after one yield are chained directly behind the yielded element (last added first); adds at the end move the tail
+    for n in (1, 2, 3):
+        out.append([hdr()] + build("a", avals(n)) + ["a iter n a5 a6 n n r"] + probe() + ["END"])
+        out.append([hdr()] + build("a", avals(n)) + ["a iter n n a5 a6 a7"] + probe() + ["END"])
+        out.append([hdr()] + build("a", avals(n)) + ["a iter n n n a5 a6 a7 p8 n"] + probe() + ["END"])
+        for m in (1, 2, 3):
+            out.append([hdr()] + build("a", avals(n)) + build("b", [20 + i for i in range(m)]) + ["a zip n a5:6 a7:8 n"] + probe() + ["END"])
+            out.append([hdr()] + build("a", avals(n)) + build("b", [20 + i for i in range(m)]) + ["a zip n n n a5:6 a7:8 p1:2 n"] + probe() + ["END"])
     # ---------------------------------------------------------------- sorting: all sequences over 3 keys, tags make elements distinct
     sl = 5 if quick else 7
     for ln in range(sl + 1):
